@@ -213,7 +213,7 @@ func textRegistry() []tEntry {
 			jsonOf[consensus.State]("consensus.State"),
 			jsonOf[consensus.Network]("consensus.Network"),
 			jsonOf[consensus.V1BlockSupplement]("consensus.V1BlockSupplement"),
-			{Name: "consensus.ApplyUpdate/json", Covers: []string{"consensus.ApplyUpdate.UnmarshalJSON"}, Kind: "json",
+			{Name: "consensus.ApplyUpdate/json", Covers: []string{"consensus.ApplyUpdate.UnmarshalJSON", "consensus.elementLeaf.UnmarshalJSON" /* unexported: reached through updatedLeaves */}, Kind: "json",
 				Call: func(in []byte) error { return json.Unmarshal(in, new(consensus.ApplyUpdate)) },
 				Valid: func(rng *rand.Rand) []byte {
 					updateJSONs()
